@@ -288,7 +288,8 @@ def _wrapper_strategy(tier, w):
             "shape": shape,
             "x_range": draw(gen.nice_or_log(0.1, 10.0)),
             "polys": {k: draw(st.lists(coef, min_size=20, max_size=20)) for k in POLY_KEYS},
-            "prefactor": draw(gen.floats(-3.0, 3.0, 32)),
+            "prefactor": draw(st.one_of(gen.floats(-3.0, 3.0, 32), gen.floats(-3.0, 3.0, 32), gen.floats(-3.0, 3.0, 32),
+                                       st.sampled_from([0.0, 1.0, -1.0]))),  # exact 0 = inviscid / switched-off operator
             "threads": draw(st.sampled_from([False, 1, 2])),
             "deg_f": draw(st.integers(0, 2)),
             "filter_order": draw(st.integers(1, 5)),
